@@ -467,7 +467,7 @@ fn pair_strategy() -> impl Strategy<Value = Case> {
 
 fn strategy(tier: Tier) -> BoxedStrategy<Case> {
     let max = if tier == Tier::Quick { 14 } else { 40 };
-    let cfg = GenCfg::small().terms(1, max).recs(0);
+    let cfg = GenCfg::small().terms(1, max).recs(3);
     prop_oneof![
         3 => ops_strategy(),
         5 => pair_strategy(),
